@@ -6,7 +6,18 @@
    greedy replacement, discharge of a carrier through a relational fact, best := copy, swap with best,
    the PSO sweep step, ClipAll / SortByFit / ShadowAll); soundness of the atoms, of the special rules
    (copy pairs, swap pair, PSO step, and the strong rule for ForSlots: every slot is visited exactly once);
-   [ba_sound]; [c02_of_check]. *)
+   [ba_sound]; [c02_of_check].
+
+   The concretisation is RELATIVE TO THE BEST AGENT B0 THE TASK STARTED WITH (Section WithB0): where the single-task
+   reading on a fresh space says "best.fit is still the sentinel KMAX" / "best.fit <= KMAX" / "slot fitness below
+   KMAX", BG says "best = B0" / "best.fit <= B0.fit" / "slot fitness below B0.fit", and the role Clean of the initial
+   population is justified by the start hypothesis [c02_start] (positions clipped, no agent below the best agent)
+   instead of "every fitness is KMAX".  [c02_of_check_from] / [c02r_of_check_from] are the one-task theorems from any
+   start state (the latter: a program passing [c02r_check] ends in a start state again); the original fresh-space
+   theorem [c02_of_check] is the corollary B0 := the placeholder with fitness KMAX ([dump_ok_from_fresh]);
+   [c02_tasks_each] / [c02_tasks] cover every finite history of tasks on one space ([tasks02]: each task re-creates
+   its local arrays and inherits everything else): per task w.r.t. the best agent that task started with, and --
+   by [dump_ok_from_rebase] -- for the concatenated history w.r.t. the best agent the history started with. *)
 From Coq Require Import String ZArith List Bool Arith Lia.
 From OV Require Import Base.FloatKey Model.Clip Model.IR Model.IRSem Analysis.AbsInt Analysis.SemLemmas Analysis.Sweep Analysis.Feasible Analysis.Counts Analysis.BestMin.
 Import ListNotations.
@@ -124,6 +135,19 @@ Definition dump_ok (y : st) (h1 : list event) : Prop :=
   (In (EvEval (apos (best y)) (afit (best y))) h1 \/ afit (best y) = KMAX) /\
   kle (afit (best y)) KMAX = true.
 
+(* The same w.r.t. the task the events h1 belong to, started with the (inherited) best agent B0: the sentinel is
+   replaced by B0's fitness, "still the placeholder" by "still B0".  On a fresh space B0 is the placeholder with
+   fitness KMAX and this is [dump_ok] (dump_ok_from_fresh below). *)
+Definition dump_ok_from (B0 : agent) (y : st) (h1 : list event) : Prop :=
+  (forall c v, In (EvEval c v) h1 -> kle (afit (best y)) v = true) /\
+  (In (EvEval (apos (best y)) (afit (best y))) h1 \/ best y = B0) /\
+  kle (afit (best y)) (afit B0) = true.
+
+(* everything up to the soundness theorem is relative to the best agent B0 the task started with *)
+Section WithB0.
+Variable B0 : agent.
+Notation dump_ok := (dump_ok_from B0).
+
 Section Conc.
   Variables (lbs ubs : list Z) (f : contents -> Z).
 
@@ -156,10 +180,10 @@ Section Conc.
     g_cell : forall k c, mem cur x k c -> cell_ok (get a k) x h c;
     g_cov : forall c v, In (EvEval c v) h -> Cov a cur x h v;
     g_evf : forall c v, In (EvEval c v) h -> v = f c;
-    g_bw : In (EvEval (apos (best x)) (afit (best x))) h \/ afit (best x) = KMAX;
-    g_bmax : kle (afit (best x)) KMAX = true;
+    g_bw : In (EvEval (apos (best x)) (afit (best x))) h \/ best x = B0;
+    g_bmax : kle (afit (best x)) (afit B0) = true;
     g_locw : b_locw a = true -> forall i ag c, nth_error (pop x) i = Some ag -> nth_error (loc x) i = Some c ->
-             klt (afit ag) KMAX = true -> In (EvEval c (afit ag)) h;
+             klt (afit ag) (afit B0) = true -> In (EvEval c (afit ag)) h;
     g_facts : forall ft, In ft (b_facts a) -> fact_ok cur x ft;
     g_dumps : forall h1 y h2, h = h1 ++ EvDump y :: h2 -> dump_ok y h1;
     g_evfeas : forall c v, In (EvEval c v) h -> feasible lbs ubs c = true;
@@ -973,7 +997,10 @@ Section BGAS.
   Notation qual_ok := (qual_ok lbs ubs).
 
   Lemma qual_ok_same q h c c' : apos c' = apos c -> afit c' = afit c -> qual_ok q h c -> qual_ok q h c'.
-  Proof. intros H1 H2. destruct q; simpl; unfold BestMinSound.goodS; rewrite H1, ?H2; auto. Qed.
+  Proof.
+    intros H1 H2. destruct q; simpl; try (rewrite H1; auto; fail).
+    intros [K1 K2]. split; [rewrite H1; exact K1|rewrite H1, H2; exact K2].
+  Qed.
 
   (* d := private copy of s *)
   Lemma BG_assign l a a' cur x h d s cs od n x' :
@@ -1710,7 +1737,7 @@ Section PSOBG.
     assert (F3 : kle (afit (best x')) (afit (best x)) = true /\ kle (afit (best x')) (afit ag1) = true).
     { destruct Pbest as [(E & c & n & _ & ->)|(E & ->)]; simpl; unfold klt, kle in *; lia. }
     destruct F3 as [F3a F3b].
-    assert (F4 : klt (afit ag1) KMAX = true -> forall c, nth_error (loc x') i = Some c ->
+    assert (F4 : klt (afit ag1) (afit B0) = true -> forall c, nth_error (loc x') i = Some c ->
                  In (EvEval c (afit ag1)) h' /\ feasible lbs ubs c = true).
     { intros Hk c Hc. destruct Pfit as [(E & E2 & E3)|(E & -> & E3)].
       - rewrite E3 in Hc. injection Hc as <-. rewrite E2. split; [exact Hev|exact Hfeas].
@@ -1764,6 +1791,54 @@ Proof.
     apply andb_true_iff in E as [E1 E2]; apply ref_eqb_eq in E1, E2; subst; auto.
 Qed.
 
+Lemma is_havoc_clip_spec t r : is_havoc_clip t = Some r -> exists m, t = Seq (Havoc m r) (Clip r).
+Proof.
+  destruct t; try discriminate. simpl. destruct t1; try discriminate. destruct t2; try discriminate.
+  destruct (ref_eqb r0 r1) eqn:E; [|discriminate]. intros H. injection H as <-.
+  apply ref_eqb_eq in E. subst r1. exists m. reflexivity.
+Qed.
+
+Lemma havoc_clip_inv l r a a' : havoc_clip_a l r a = (a', []) ->
+  r <> Best /\ is_carrier (snd (rd r a)) = false /\ a' = wr r (QFeas, snd (rd r a)) (kill r a).
+Proof.
+  unfold havoc_clip_a.
+  destruct r; try discriminate; (destruct (is_carrier _) eqn:E; [discriminate|]); intros H; injection H as <-;
+    repeat split; try assumption; discriminate.
+Qed.
+
+Section HCSEM.
+  Variables (lbs ubs : list Z) (f : contents -> Z) (hk : st -> st) (n_iter : nat) (okc : contents -> contents -> bool).
+  Notation exec := (exec lbs ubs f hk n_iter okc).
+  Notation exec_atom := (exec_atom lbs ubs f hk okc).
+
+  (* r.position = <arithmetic>; r.check_limits(): the two writes amount to one write of a clipped position *)
+  Lemma havoc_clip_sem m r cur o x x' evs o' :
+    exec cur (Seq (Havoc m r) (Clip r)) o x = Some (x', evs, o') ->
+    exists ag c idn x3,
+      getr r cur x = Some ag /\ okc (apos ag) c = true /\
+      setr r cur (clipa lbs ubs {| apos := c; aid := idn; afit := afit ag |}) x = Some x3 /\
+      (x' = x3 \/ exists n, x' = with_next x3 n) /\ evs = [].
+  Proof.
+    intros Hex.
+    change (bind (exec_atom cur (Havoc m r) o x) (fun x1 o1 => exec_atom cur (Clip r) o1 x1) = Some (x', evs, o')) in Hex.
+    apply bind_some in Hex as (y & e1 & o1 & e2 & H1 & H2 & ->).
+    simpl in H1. destruct o as [|[c|?|?|?] o0]; try discriminate.
+    destruct (getr r cur x) as [ag|] eqn:Eg; [|discriminate].
+    destruct (okc (apos ag) c) eqn:Eok; simpl in H1; [|discriminate].
+    destruct m.
+    - destruct (setr r cur _ x) as [x1|] eqn:Es; [|discriminate]. unfold ret in H1. injection H1 as <- <- <-.
+      simpl in H2. rewrite getr_with_next, (getr_setr_same _ _ _ _ _ Es) in H2.
+      destruct (setr r cur _ (with_next x1 _)) as [x2|] eqn:Es2; [|discriminate]. unfold ret in H2. injection H2 as <- <- <-.
+      destruct (setr_setr _ _ _ _ _ _ _ _ Es Es2) as (x3 & Hs3 & ->).
+      exists ag, c, (next x), x3. repeat split; try assumption. right. eexists; reflexivity.
+    - destruct (setr r cur _ x) as [x1|] eqn:Es; [|discriminate]. unfold ret in H1. injection H1 as <- <- <-.
+      simpl in H2. rewrite (getr_setr_same _ _ _ _ _ Es) in H2.
+      destruct (setr r cur _ x1) as [x2|] eqn:Es2; [|discriminate]. unfold ret in H2. injection H2 as <- <- <-.
+      pose proof (setr_setr0 _ _ _ _ _ _ _ Es Es2) as Hs3.
+      exists ag, c, (aid ag), x2. repeat split; try assumption. left. reflexivity.
+  Qed.
+End HCSEM.
+
 Section SP0.
   Variables (lbs ubs : list Z) (f : contents -> Z) (n_iter : nat).
   Hypothesis box_ok : Forall2 (fun l h => kle l h = true) lbs ubs.
@@ -1801,14 +1876,22 @@ Section SP0.
         subst incur. destruct Hcur as [i ->]. apply has_fact_in in Hf.
         apply swap_sem in Hex as (p & l0 & Hp & Hu & -> & -> & ->). apply BG_nil.
         apply BG_swap; try assumption. destruct (fst (b_cur a)); try discriminate; reflexivity.
-      + destruct (stmt_eqb (strip s) sweep_pso) eqn:Eps; [|discriminate].
-        apply stmt_eqb_eq in Eps. rewrite Eps in Hex. injection Hsp as Hsp.
-        destruct (incur && qge (fst (b_cur a)) QFeas && negb (is_carrier (snd (b_cur a))) && b_locw a) eqn:E; [|discriminate].
-        injection Hsp as <-. apply andb_true_iff in E as [E Hlw]. apply andb_true_iff in E as [E Hnc].
-        apply andb_true_iff in E as [Hin Hq]. apply negb_true_iff in Hnc.
-        subst incur. destruct Hcur as [i ->].
-        apply pso_sem in Hex as (ag & ag1 & Hag & -> & -> & Hspec).
-        eapply BG_pso_step; eassumption.
+      + destruct (stmt_eqb (strip s) sweep_pso) eqn:Eps.
+        * apply stmt_eqb_eq in Eps. rewrite Eps in Hex. injection Hsp as Hsp.
+          destruct (incur && qge (fst (b_cur a)) QFeas && negb (is_carrier (snd (b_cur a))) && b_locw a) eqn:E; [|discriminate].
+          injection Hsp as <-. apply andb_true_iff in E as [E Hlw]. apply andb_true_iff in E as [E Hnc].
+          apply andb_true_iff in E as [Hin Hq]. apply negb_true_iff in Hnc.
+          subst incur. destruct Hcur as [i ->].
+          apply pso_sem in Hex as (ag & ag1 & Hag & -> & -> & Hspec).
+          eapply BG_pso_step; eassumption.
+        * destruct (is_havoc_clip (strip s)) as [r|] eqn:Ehc; [|discriminate]. injection Hsp as Hsp.
+          apply is_havoc_clip_spec in Ehc as (m & Est). rewrite Est in Hex.
+          apply havoc_clip_sem in Hex as (ag & c & idn & x3 & Eg & Eok & Es & Hx' & ->).
+          apply havoc_clip_inv in Hsp as (Hb & Hnc & ->).
+          assert (HG3 : BG (wr r (QFeas, snd (rd r a)) (kill r a)) cur x3 h).
+          { eapply BG_write; [exact HG|exact Hb|exact Eg|exact Es|exact Hnc| |reflexivity].
+            apply (clipa_cell lbs ubs box_ok (QNone, snd (rd r a))). eapply havoc_cell; eassumption. }
+          apply BG_nil. destruct Hx' as [->|[n ->]]; [exact HG3|apply BG_next; exact HG3].
   Qed.
 
   Theorem ba_sound0 : forall s l incur a a', ba_absint0 l incur s a = (a', []) ->
@@ -1999,6 +2082,87 @@ Section MAIN.
 End MAIN.
 
 (* ---------------------------------------------------------------- the property *)
+(* The state a task starts in: every position clipped, NO AGENT BELOW THE BEST AGENT (whatever the fitnesses are),
+   the trial and shadow registers hold well-formed arrays.  A freshly built space is such a state (every fitness,
+   the best agent's included, is the sentinel: c02_init below), and a program that passes [c02r_check] ends in
+   such a state; run() re-creates the local arrays (PSO family), which the invariant does not constrain at a start
+   (g_locw speaks about agents strictly below B0 only). *)
+Record c02_start (lbs ubs : list Z) (x : st) : Prop := {
+  s_pop : forall ag, In ag (pop x) -> feasible lbs ubs (apos ag) = true /\ kle (afit (best x)) (afit ag) = true;
+  s_best : wf lbs (apos (best x));
+  s_tr : wf lbs (apos (tr x));
+  s_sh : forall ag, In ag (sh x) -> wf lbs (apos ag)
+}.
+
+Section PROPB.
+  Variables (lbs ubs : list Z) (f : contents -> Z) (n_iter : nat).
+  Hypothesis box_ok : Forall2 (fun l h => kle l h = true) lbs ubs.
+
+  Lemma init_BG_from x : c02_start lbs ubs x -> best x = B0 -> BG lbs ubs f ba_init None x [].
+  Proof.
+    intros [I1 I2 I3 I4] Hb0. constructor.
+    - intros k c Hm. destruct k; simpl in Hm.
+      + destruct Hm as (j & Hn & _). apply nth_error_In in Hn. destruct (I1 c Hn) as [K1 K2].
+        split; simpl; [exact K1|]. intros _. exact K2.
+      + destruct Hm as (i & Hc & _). discriminate.
+      + destruct Hm as (i & j & Hc & _). discriminate.
+      + subst c. split; simpl; [exact I3|intros E; discriminate E].
+      + destruct Hm as (j & Hn & _). apply nth_error_In in Hn. split; simpl; [apply I4; exact Hn|intros E; discriminate E].
+      + destruct Hm as (i & Hc & _). discriminate.
+    - intros c v [].
+    - intros c v [].
+    - right. exact Hb0.
+    - rewrite Hb0. apply kle_refl.
+    - intros _ i ag c Hn _ Hk. apply nth_error_In in Hn. destruct (I1 ag Hn) as [_ K2]. rewrite Hb0 in K2.
+      unfold klt, kle in *. lia.
+    - intros ft [].
+    - intros h1 y h2 E. destruct h1; discriminate.
+    - intros c v [].
+    - exact I2.
+  Qed.
+
+  (* what the final abstract state says about the final concrete state *)
+  Lemma BG_final a' x' evs : BG lbs ubs f a' None x' evs -> no_carrier a' = true ->
+    (forall h1 y h2, evs = h1 ++ EvDump y :: h2 -> dump_ok y h1) /\
+    dump_ok x' evs /\
+    (forall c v, In (EvEval c v) evs -> v = f c) /\
+    (forall c v, In (EvEval c v) evs -> feasible lbs ubs c = true).
+  Proof.
+    intros HG Hnc. destruct HG as [G1 G2 G3 G4 G5 G6 G7 G8 G9 G10].
+    split; [exact G8|split; [|split; [exact G3|exact G9]]].
+    split; [|split; assumption].
+    intros c v Hin. destruct (G2 c v Hin) as [K|(k & c0 & K1 & K2 & _)]; [exact K|].
+    exfalso. eapply no_carrier_spec; eassumption.
+  Qed.
+
+  Lemma BG_restart a' x' evs : BG lbs ubs f a' None x' evs -> end_ok a' = true -> c02_start lbs ubs x'.
+  Proof.
+    intros HG He. unfold end_ok in He. apply andb_true_iff in He as [Hq Hr].
+    constructor.
+    - intros ag Hin. apply In_nth_error in Hin as [j Hn].
+      assert (Hm : mem None x' CPop ag) by (exists j; split; [exact Hn|exact I]).
+      destruct (g_cell _ _ _ _ _ _ _ HG CPop ag Hm) as [K1 K2]. simpl in K1, K2. split.
+      + eapply (qual_ok_mono lbs ubs f _ QFeas) in K1; [exact K1|exact Hq].
+      + apply K2. destruct (snd (b_pop a')); try discriminate; reflexivity.
+    - exact (g_bwf _ _ _ _ _ _ _ HG).
+    - assert (Hm : mem None x' CTr (tr x')) by reflexivity.
+      destruct (g_cell _ _ _ _ _ _ _ HG CTr _ Hm) as [K1 _]. eapply qual_ok_wf; [exact f|exact K1].
+    - intros ag Hin. apply In_nth_error in Hin as [j Hn].
+      assert (Hm : mem None x' CShall ag) by (exists j; split; [exact Hn|discriminate]).
+      destruct (g_cell _ _ _ _ _ _ _ HG CShall _ Hm) as [K1 _]. eapply qual_ok_wf; [exact f|exact K1].
+  Qed.
+
+  (* one task, started with best agent B0 *)
+  Lemma ba_run_from (p : stmt) a' : ba_absint 0 false p ba_init = (a', []) ->
+    forall o x0 x' evs o', c02_start lbs ubs x0 -> best x0 = B0 ->
+      run lbs ubs f bhk n_iter okc_std p o x0 = Some (x', evs, o') -> BG lbs ubs f a' None x' evs.
+  Proof.
+    intros E o x0 x' evs o' Hi Hb0 Hr.
+    exact (ba_sound lbs ubs f n_iter box_ok p 0 ba_init a' E o x0 [] x' evs o' (init_BG_from x0 Hi Hb0) Hr).
+  Qed.
+End PROPB.
+End WithB0.
+
 (* a freshly built space (C06): every position feasible, every fitness the sentinel FLOAT_MAX, the best agent
    the placeholder with fitness FLOAT_MAX; the trial and shadow registers hold well-formed arrays *)
 Record c02_init (lbs ubs : list Z) (x : st) : Prop := {
@@ -2008,47 +2172,77 @@ Record c02_init (lbs ubs : list Z) (x : st) : Prop := {
   i_sh : forall ag, In ag (sh x) -> wf lbs (apos ag)
 }.
 
+(* a fresh space is a start state *)
+Lemma c02_init_start lbs ubs x : c02_init lbs ubs x -> c02_start lbs ubs x.
+Proof.
+  intros [I1 [I2 I2'] I3 I4]. constructor; try assumption.
+  intros ag Hin. destruct (I1 ag Hin) as [K1 K2]. split; [exact K1|]. rewrite I2, K2. apply kle_refl.
+Qed.
+
+(* run() re-creates its local arrays: that does not touch what a start state is *)
+Lemma c02_start_with_loc lbs ubs x lc : c02_start lbs ubs x -> c02_start lbs ubs (with_loc x lc).
+Proof. intros [I1 I2 I3 I4]. constructor; assumption. Qed.
+
+(* w.r.t. a placeholder whose fitness is the sentinel, [dump_ok_from] is [dump_ok] *)
+Lemma dump_ok_from_fresh B0 y h : afit B0 = KMAX -> dump_ok_from B0 y h -> dump_ok y h.
+Proof.
+  intros HB (H1 & H2 & H3). split; [exact H1|split].
+  - destruct H2 as [H2|H2]; [left; exact H2|right; rewrite H2; exact HB].
+  - rewrite <- HB. exact H3.
+Qed.
+
+Lemma c02r_check_c02 p : c02r_check p = true -> c02_check p = true.
+Proof.
+  unfold c02r_check, c02_check. destruct (ba_absint 0 false p ba_init) as [a' [|? ?]]; [|discriminate].
+  intros H. apply andb_true_iff in H as [H _]. exact H.
+Qed.
+
 Section PROP.
   Variables (lbs ubs : list Z) (f : contents -> Z) (n_iter : nat).
   Hypothesis box_ok : Forall2 (fun l h => kle l h = true) lbs ubs.
 
-  Lemma init_BG x : c02_init lbs ubs x -> BG lbs ubs f ba_init None x [].
+  (* C02 for one task of one program, started in ANY start state (B0 := the best agent it starts with) *)
+  Theorem c02_of_check_from (p : stmt) : c02_check p = true ->
+    forall o x0 x' evs o', c02_start lbs ubs x0 -> run lbs ubs f bhk n_iter okc_std p o x0 = Some (x', evs, o') ->
+      (forall h1 y h2, evs = h1 ++ EvDump y :: h2 -> dump_ok_from (best x0) y h1) /\
+      dump_ok_from (best x0) x' evs /\
+      (forall c v, In (EvEval c v) evs -> v = f c).
   Proof.
-    intros [I1 [I2 I2'] I3 I4]. constructor.
-    - intros k c Hm. destruct k; simpl in Hm.
-      + destruct Hm as (j & Hn & _). apply nth_error_In in Hn. destruct (I1 c Hn) as [K1 K2].
-        split; simpl; [exact K1|]. intros _. rewrite I2, K2. apply kle_refl.
-      + destruct Hm as (i & Hc & _). discriminate.
-      + destruct Hm as (i & j & Hc & _). discriminate.
-      + subst c. split; simpl; [exact I3|intros E; discriminate E].
-      + destruct Hm as (j & Hn & _). apply nth_error_In in Hn. split; simpl; [apply I4; exact Hn|intros E; discriminate E].
-      + destruct Hm as (i & Hc & _). discriminate.
-    - intros c v [].
-    - intros c v [].
-    - right. exact I2.
-    - rewrite I2. apply kle_refl.
-    - intros _ i ag c Hn _ Hk. apply nth_error_In in Hn. destruct (I1 ag Hn) as [_ K2]. rewrite K2, klt_irrefl in Hk. discriminate.
-    - intros ft [].
-    - intros h1 y h2 E. destruct h1; discriminate.
-    - intros c v [].
-    - exact I2'.
+    unfold c02_check. intros Hc o x0 x' evs o' Hi Hr.
+    destruct (ba_absint 0 false p ba_init) as [a' al] eqn:E. destruct al; [|discriminate].
+    pose proof (ba_run_from (best x0) lbs ubs f n_iter box_ok p a' E o x0 x' evs o' Hi eq_refl Hr) as HG.
+    destruct (BG_final _ _ _ _ _ _ _ HG Hc) as (H1 & H2 & H3 & _). auto.
   Qed.
 
-  (* C02 for one program *)
+  (* ... and, with the end-of-task condition, it ends in a start state again *)
+  Theorem c02r_of_check_from (p : stmt) : c02r_check p = true ->
+    forall o x0 x' evs o', c02_start lbs ubs x0 -> run lbs ubs f bhk n_iter okc_std p o x0 = Some (x', evs, o') ->
+      (forall h1 y h2, evs = h1 ++ EvDump y :: h2 -> dump_ok_from (best x0) y h1) /\
+      dump_ok_from (best x0) x' evs /\
+      (forall c v, In (EvEval c v) evs -> v = f c) /\
+      c02_start lbs ubs x'.
+  Proof.
+    unfold c02r_check. intros Hc o x0 x' evs o' Hi Hr.
+    destruct (ba_absint 0 false p ba_init) as [a' al] eqn:E. destruct al; [|discriminate].
+    apply andb_true_iff in Hc as [Hnc He].
+    pose proof (ba_run_from (best x0) lbs ubs f n_iter box_ok p a' E o x0 x' evs o' Hi eq_refl Hr) as HG.
+    destruct (BG_final _ _ _ _ _ _ _ HG Hnc) as (H1 & H2 & H3 & _).
+    split; [exact H1|split; [exact H2|split; [exact H3|]]]. eapply BG_restart; eassumption.
+  Qed.
+
+  (* C02 for one program on a fresh space (the original statement) *)
   Theorem c02_of_check (p : stmt) : c02_check p = true ->
     forall o x0 x' evs o', c02_init lbs ubs x0 -> run lbs ubs f bhk n_iter okc_std p o x0 = Some (x', evs, o') ->
       (forall h1 y h2, evs = h1 ++ EvDump y :: h2 -> dump_ok y h1) /\
       dump_ok x' evs /\
       (forall c v, In (EvEval c v) evs -> v = f c).
   Proof.
-    unfold c02_check. intros Hc o x0 x' evs o' Hi Hr.
-    destruct (ba_absint 0 false p ba_init) as [a' al] eqn:E. destruct al; [|discriminate].
-    pose proof (ba_sound lbs ubs f n_iter box_ok p 0 ba_init a' E o x0 [] x' evs o' (init_BG x0 Hi) Hr) as HG. simpl in HG.
-    destruct HG as [G1 G2 G3 G4 G5 G6 G7 G8 G9 G10].
-    split; [exact G8|split; [|exact G3]].
-    split; [|split; assumption].
-    intros c v Hin. destruct (G2 c v Hin) as [K|(k & c0 & K1 & K2 & _)]; [exact K|].
-    exfalso. eapply no_carrier_spec; eassumption.
+    intros Hc o x0 x' evs o' Hi Hr.
+    destruct (c02_of_check_from p Hc o x0 x' evs o' (c02_init_start _ _ _ Hi) Hr) as (H1 & H2 & H3).
+    pose proof (proj1 (i_best _ _ _ Hi)) as HB.
+    split; [|split; [|exact H3]].
+    - intros h1 y h2 E. eapply dump_ok_from_fresh; [exact HB|eapply H1; exact E].
+    - eapply dump_ok_from_fresh; eassumption.
   Qed.
 End PROP.
 
@@ -2103,3 +2297,142 @@ Proof.
   intros Hf H h1 y1 h2 E. eapply dump_ok_mono; [exact (H _ _ _ E)|exact Hf|].
   intros e He. rewrite E. apply in_or_app. left. exact He.
 Qed.
+
+(* ---------------------------------------------------------------- consequences of [dump_ok_from] *)
+(* once the best agent is strictly below the one the task started with, it is an evaluated pair of this task *)
+Lemma dump_ok_from_argmin B0 y h : dump_ok_from B0 y h -> klt (afit (best y)) (afit B0) = true ->
+  In (EvEval (apos (best y)) (afit (best y))) h.
+Proof. intros (_ & [H2|H2] & _) Hlt; [exact H2|]. rewrite H2, klt_irrefl in Hlt. discriminate. Qed.
+
+(* in particular as soon as one evaluation of the task is strictly below the inherited best fitness *)
+Lemma dump_ok_from_argmin_ev B0 y h : dump_ok_from B0 y h -> (exists c v, In (EvEval c v) h /\ klt v (afit B0) = true) ->
+  In (EvEval (apos (best y)) (afit (best y))) h.
+Proof.
+  intros Hd (c & v & Hin & Hlt). apply (dump_ok_from_argmin B0); [exact Hd|].
+  destruct Hd as (H1 & _ & _). specialize (H1 c v Hin). unfold klt, kle in *. lia.
+Qed.
+
+Lemma dump_ok_from_mono B0 y1 h1 y2 h2 : dump_ok_from B0 y1 h1 -> dump_ok_from B0 y2 h2 -> (forall e, In e h1 -> In e h2) ->
+  kle (afit (best y2)) (afit (best y1)) = true.
+Proof.
+  intros (_ & [A|A] & _) (B1 & _ & B3) Hsub.
+  - eapply B1. apply Hsub. exact A.
+  - rewrite A. exact B3.
+Qed.
+
+Lemma dumps_monotone_from B0 evs : (forall h1 y h2, evs = h1 ++ EvDump y :: h2 -> dump_ok_from B0 y h1) ->
+  forall h1 y1 h2 y2 h3, evs = h1 ++ EvDump y1 :: h2 ++ EvDump y2 :: h3 ->
+  kle (afit (best y2)) (afit (best y1)) = true.
+Proof.
+  intros H h1 y1 h2 y2 h3 E.
+  pose proof (H h1 y1 (h2 ++ EvDump y2 :: h3) E) as D1.
+  assert (E2 : evs = (h1 ++ EvDump y1 :: h2) ++ EvDump y2 :: h3) by (rewrite E, <- app_assoc; reflexivity).
+  pose proof (H _ _ _ E2) as D2.
+  eapply dump_ok_from_mono; [exact D1|exact D2|]. intros e He. apply in_or_app. left. exact He.
+Qed.
+
+Lemma final_monotone_from B0 evs x' : dump_ok_from B0 x' evs ->
+  (forall h1 y h2, evs = h1 ++ EvDump y :: h2 -> dump_ok_from B0 y h1) ->
+  forall h1 y1 h2, evs = h1 ++ EvDump y1 :: h2 -> kle (afit (best x')) (afit (best y1)) = true.
+Proof.
+  intros Hf H h1 y1 h2 E. eapply dump_ok_from_mono; [exact (H _ _ _ E)|exact Hf|].
+  intros e He. rewrite E. apply in_or_app. left. exact He.
+Qed.
+
+(* a state trivially satisfies the claim w.r.t. its own best agent and the empty history *)
+Lemma dump_ok_from_self x : dump_ok_from (best x) x [].
+Proof. split; [intros c v []|split; [right; reflexivity|apply kle_refl]]. Qed.
+
+(* REBASE: the claim of a later task w.r.t. the best agent it inherited from an earlier part of the history is the claim
+   w.r.t. the best agent the history started with, over the concatenated events *)
+Lemma dump_ok_from_rebase B0 x1 evs1 y h :
+  dump_ok_from B0 x1 evs1 -> dump_ok_from (best x1) y h -> dump_ok_from B0 y (evs1 ++ h).
+Proof.
+  intros (A1 & A2 & A3) (C1 & C2 & C3). split; [|split].
+  - intros c v Hin. apply in_app_or in Hin as [Hin|Hin]; [|eapply C1; exact Hin].
+    eapply kle_trans; [exact C3|eapply A1; exact Hin].
+  - destruct C2 as [C2|C2]; [left; apply in_or_app; right; exact C2|].
+    rewrite C2. destruct A2 as [A2|A2]; [left; apply in_or_app; left; exact A2|right; exact A2].
+  - eapply kle_trans; [exact C3|exact A3].
+Qed.
+
+(* ---------------------------------------------------------------- histories of tasks on one space
+   A task inherits the agents (positions and fitnesses), the best agent, the trial and shadow registers and re-creates
+   its local arrays [lc] (any contents).  A history is recorded task by task: (state the task started in, its events,
+   the state it ended in). *)
+Section Tasks.
+  Variables (lbs ubs : list Z) (f : contents -> Z) (n_iter : nat).
+  Hypothesis box_ok : Forall2 (fun l h => kle l h = true) lbs ubs.
+
+  Definition seg := (st * list event * st)%type.
+  Definition seg_start (s : seg) : st := fst (fst s).
+  Definition seg_evs (s : seg) : list event := snd (fst s).
+  Definition seg_end (s : seg) : st := snd s.
+  Definition hist (segs : list seg) : list event := flat_map seg_evs segs.
+
+  Inductive tasks02 : list stmt -> st -> list seg -> st -> Prop :=
+  | tasks02_nil x : tasks02 [] x [] x
+  | tasks02_cons p ps x lc o x1 evs1 o1 segs x2 :
+      run lbs ubs f bhk n_iter okc_std p o (with_loc x lc) = Some (x1, evs1, o1) ->
+      tasks02 ps x1 segs x2 ->
+      tasks02 (p :: ps) x ((x, evs1, x1) :: segs) x2.
+
+  (* the per-task claim, w.r.t. the best agent the task started with *)
+  Definition task_ok (s : seg) : Prop :=
+    c02_start lbs ubs (seg_start s) /\
+    (forall h1 y h2, seg_evs s = h1 ++ EvDump y :: h2 -> dump_ok_from (best (seg_start s)) y h1) /\
+    dump_ok_from (best (seg_start s)) (seg_end s) (seg_evs s) /\
+    (forall c v, In (EvEval c v) (seg_evs s) -> v = f c) /\
+    c02_start lbs ubs (seg_end s).
+
+  (* every task of every finite history satisfies the per-task claim *)
+  Theorem c02_tasks_each (ps : list stmt) :
+    Forall (fun p => c02r_check p = true) ps ->
+    forall x0 segs x', c02_start lbs ubs x0 -> tasks02 ps x0 segs x' ->
+      Forall task_ok segs /\ c02_start lbs ubs x'.
+  Proof.
+    intros Hps x0 segs x' H0 Ht. induction Ht as [x|p ps x lc o x1 evs1 o1 segs x2 Hrun Ht IH].
+    - split; [constructor|exact H0].
+    - pose proof (Forall_inv Hps) as Hp. pose proof (Forall_inv_tail Hps) as Hps'. simpl in Hp.
+      destruct (c02r_of_check_from lbs ubs f n_iter box_ok p Hp o (with_loc x lc) x1 evs1 o1
+                  (c02_start_with_loc _ _ _ lc H0) Hrun) as (K1 & K2 & K3 & K4).
+      destruct (IH Hps' K4) as [IH1 IH2]. split; [|exact IH2].
+      constructor; [|exact IH1]. unfold task_ok, seg_start, seg_evs, seg_end; simpl.
+      split; [exact H0|split; [exact K1|split; [exact K2|split; [exact K3|exact K4]]]].
+  Qed.
+
+  (* hence the whole history behaves like ONE task started with the best agent the history started with *)
+  Theorem c02_tasks (ps : list stmt) :
+    Forall (fun p => c02r_check p = true) ps ->
+    forall x0 segs x', c02_start lbs ubs x0 -> tasks02 ps x0 segs x' ->
+      (forall h1 y h2, hist segs = h1 ++ EvDump y :: h2 -> dump_ok_from (best x0) y h1) /\
+      dump_ok_from (best x0) x' (hist segs) /\
+      (forall c v, In (EvEval c v) (hist segs) -> v = f c) /\
+      c02_start lbs ubs x'.
+  Proof.
+    intros Hps x0 segs x' H0 Ht. induction Ht as [x|p ps x lc o x1 evs1 o1 segs x2 Hrun Ht IH].
+    - simpl. split; [intros h1 y h2 E; destruct h1; discriminate|].
+      split; [apply dump_ok_from_self|split; [intros c v []|exact H0]].
+    - pose proof (Forall_inv Hps) as Hp. pose proof (Forall_inv_tail Hps) as Hps'. simpl in Hp.
+      destruct (c02r_of_check_from lbs ubs f n_iter box_ok p Hp o (with_loc x lc) x1 evs1 o1
+                  (c02_start_with_loc _ _ _ lc H0) Hrun) as (K1 & K2 & K3 & K4).
+      change (best (with_loc x lc)) with (best x) in K1, K2.
+      destruct (IH Hps' K4) as (J1 & J2 & J3 & J4).
+      change (hist ((x, evs1, x1) :: segs)) with (evs1 ++ hist segs).
+      split; [|split; [|split; [|exact J4]]].
+      + intros h1 y h2 E. apply app_eq_app in E as [l [[E1 E2]|[E1 E2]]].
+        * (* the record lies in a later task, or is the first event after evs1 *)
+          destruct l as [|e l].
+          -- rewrite app_nil_r in E1. subst evs1. simpl in E2.
+             rewrite <- (app_nil_r h1). eapply dump_ok_from_rebase; [exact K2|].
+             eapply (J1 [] y h2). symmetry. exact E2.
+          -- simpl in E2. injection E2 as <- E2. eapply K1. exact E1.
+        * subst h1. eapply dump_ok_from_rebase; [exact K2|]. eapply J1. exact E2.
+      + eapply dump_ok_from_rebase; eassumption.
+      + intros c v Hin. apply in_app_or in Hin as [Hin|Hin]; [eapply K3|eapply J3]; exact Hin.
+  Qed.
+End Tasks.
+
+Print Assumptions c02_tasks.
+Print Assumptions c02_tasks_each.
+Print Assumptions c02_of_check.
